@@ -18,6 +18,11 @@
     "own name = inherited name" is "redeclares an ancestor's operation"; each hierarchy is compiled: E011 iff the model
     says so, every E011 points at a redeclaring operation, and for accepted programs all_base_interfaces /
     all_inherited_operations / all_operations equal the model's sets with nothing listed twice.
+    MC_Syntax_inject: ONE violation from a catalogue of 19 injections (member / enumerator / operation / definition names,
+    tags unique / optional / compact / range, stream placement, tuple arity, key type, empty compact struct / checked
+    enum, enumerator values unique - written in two spellings - and in range, alias of optional, unknown / repeated
+    attribute) at a seed-chosen site of a generated well-formed program (480 / 6000 programs: nested modules, several
+    files, attributes, streams, inheritance around the site).
     Oracle: accepted <=> Violations = {}; if rejected: reported codes non-empty and a subset of Violations; every
     diagnostic span lies inside its file.
 """
@@ -37,6 +42,9 @@ def run(ctx):
     for fam in ("members", "enums", "keys", "stream", "names", "attrs", "attrlists"):
         cfg = "MC_Rules_%s_%s" % (fam, ctx.tier if fam == "enums" else "quick")
         ctx.tlc("MC_Rules", cfg, replay="rules", coverage=False)
+    # one violation injected into a generated well-formed program (every rule in contexts no template has)
+    ctx.tlc("MC_Syntax", "MC_Syntax_inject", replay="rules", simulate={"num": 480 if ctx.quick else 6000, "depth": 500, "procs": 12, "seed_offset": 30},
+            label="MC_Syntax_inject", timeout=7200)
     # interface hierarchies: closure = transitive closure, shadowing = redeclaration (model checked), then compiled
     ctx.tlc("MC_Inherit", "MC_Inherit_" + ctx.tier, replay="rules", coverage=False)
     ctx.tlc("MC_Inherit", "MC_Inherit_twolevels", must_pass=False, workers=2, coverage=False,
